@@ -19,8 +19,13 @@ pub struct RxCase {
 pub const EXACT_BOUND: u32 = 6;
 pub const CLOSURE_CAP: usize = 400;
 
-pub fn is_overflow(msg: &str) -> bool {
-    msg.contains("Arithmetic overflow")
+/// Is this panic the documented reaction to loop-range arithmetic overflow ("the code will panic in
+/// case of arithmetic overflow")? The wording of the message is not part of the contract: the panic is
+/// recognised by its origin (loop_ranges.rs) or the word "overflow", and only when the program contains
+/// a loop bound large enough for a u32 product or sum to overflow at all (bounds below 16 cannot, with
+/// at most 16 instructions) — otherwise a panic in the constructors is a failure, not a discard.
+pub fn is_overflow(msg: &str, max_loop_bound: u32) -> bool {
+    max_loop_bound >= 16 && (msg.to_lowercase().contains("overflow") || msg.contains("loop_ranges.rs"))
 }
 
 /// Build the program on a fresh manager. Err(reason) = counted discard (documented overflow panic).
@@ -29,7 +34,7 @@ pub fn setup(prog: Prog) -> Result<RxCase, String> {
     let terms = match catch(|| prog.build(&mut mgr)) {
         Ok(t) => t,
         Err(msg) => {
-            if is_overflow(&msg) {
+            if is_overflow(&msg, prog.max_loop_bound()) {
                 return Err("loop-range arithmetic overflow (documented panic)".into());
             }
             // any other panic while constructing is a finding of the calling property
